@@ -42,3 +42,26 @@ REG["C02"] = {
                    "and every exposed attribute is compared by float equality with the independent parse; header-only runs on a directory without level data."),
     "level_note": _NOTE,
 }
+
+_TASTE = ("TLC model checking of Taste.tla/MC_Taste.tla (validator steps over a unit-level byte model; Corrupt actions for 17 kinds at every site, "
+          "singly and in pairs) + byte-exact concretisation of every emitted state judged by the real Taster")
+REG["C03"] = {
+    "technique": _TASTE + "; invariant AcceptsWellFormed over all 16 option sets x limits x modes",
+    "level_text": ("All layouts of <=4 boxes over <=3 files in every on-disk order, 1-2 levels, every option combination, every limit and both modes are enumerated "
+                   "by TLC and run on the real validator in 2D/3D with tame and wild payloads; one known finding (data check with a default check off)."),
+    "level_note": _NOTE,
+}
+REG["C04"] = {
+    "technique": _TASTE + "; invariant RejectsDamaged with the semantic, layout-only predicate Damaged evaluated on the resulting state",
+    "level_text": ("Every corruption of the listed classes at every site (unit positions incl. payload interior and past EOF, every other index range, every other file) "
+                   "of every layout with <=3 boxes, singly, and in pairs for <=2 boxes (all kinds) / 3 boxes (header kinds); millions of states model-checked, "
+                   "every damaged terminal state (quick: one per signature + sample) concretised and judged by the real Taster in failing and non-failing mode."),
+    "level_note": _NOTE,
+}
+REG["C20"] = {
+    "technique": _TASTE + "; invariant AcceptedIsReadable; for every state the real Taster accepts, every box is read through the real indexing interface and compared with the FAB named by its index range",
+    "level_text": ("Same corruption space as C04 plus non-canonical FAB headers and text-level edits of offsets / whitespace; whenever the real validator "
+                   "says good, the real reader must return, for every box of every validated level, an array of the declared shape holding the bytes of the FAB "
+                   "whose header names that index range."),
+    "level_note": _NOTE,
+}
